@@ -2,6 +2,7 @@ package main
 
 import (
 	"fmt"
+	"strconv"
 	"go/types"
 	"sort"
 	"strings"
@@ -88,7 +89,13 @@ func (v *Verifier) verifyFunc(fn *ssa.Function, c *Contract) (err error) {
 		_ = allowed
 	}
 	defer func() { onTopReturn = nil }()
-	v.explore(st)
+	states := []*State{st}
+	for _, en := range c.Enumerate {
+		states = v.enumerate(states, fn, c, en)
+	}
+	for _, s := range states {
+		v.explore(s)
+	}
 	if _, ok := v.obls["cover:"+key+":return"]; !ok {
 		// no path returned: still register the cover so that it fails
 		v.obls["cover:"+key+":return"] = &Obligation{Name: "cover:" + key + ":return", Kind: "cover", Cover: true, Func: key, Fn: fn,
@@ -329,4 +336,71 @@ func sortedKeys[V any](m map[string]V) []string {
 	}
 	sort.Strings(ks)
 	return ks
+}
+
+// enumerate splits the entry states over a finite domain of a parameter:
+//	enumerate i 0 7           (integers lo <= i < hi)
+//	enumerate k in someGlobalMap   (keys of a map fixed by package initialisation)
+// The residual "none of them" state is kept unless it is infeasible.
+func (v *Verifier) enumerate(states []*State, fn *ssa.Function, c *Contract, spec string) []*State {
+	f := strings.Fields(spec)
+	if len(f) != 3 {
+		unsup("bad enumerate directive %q", spec)
+	}
+	var param *ssa.Parameter
+	for _, p := range fn.Params {
+		if p.Name() == f[0] {
+			param = p
+		}
+	}
+	if param == nil {
+		unsup("enumerate: no parameter %s", f[0])
+	}
+	var out []*State
+	for _, st := range states {
+		pv := st.env[param]
+		var values []*Term
+		if f[1] == "in" {
+			env := v.specEnv(st, st.top())
+			id, _ := parseSpecExpr(f[2])
+			m := env.eval(id)
+			ms := mapSortOf(m.Ty)
+			o := Select(st.getHeap(ms), m.T)
+			es, ok := mapKnown[o]
+			if !ok {
+				unsup("enumerate: map %s is not fixed by initialisation", f[2])
+			}
+			for _, e := range es {
+				values = append(values, e.k)
+			}
+		} else {
+			lo, err1 := strconv.Atoi(f[1])
+			hi, err2 := strconv.Atoi(f[2])
+			if err1 != nil || err2 != nil {
+				unsup("bad enumerate bounds %q", spec)
+			}
+			for k := lo; k < hi; k++ {
+				values = append(values, IntLit(int64(k)))
+			}
+		}
+		var ds []*Term
+		for _, val := range values {
+			ds = append(ds, Neq(pv, val))
+			if !v.feasible(st, Eq(pv, val)) {
+				continue
+			}
+			s2 := st.clone()
+			if pv.Op == "var" {
+				s2.substVar(pv, val)
+			} else {
+				s2.assume(Eq(pv, val))
+			}
+			out = append(out, s2)
+		}
+		st.assume(And(ds...))
+		if v.feasible(st, TTrue) {
+			out = append(out, st)
+		}
+	}
+	return out
 }
